@@ -96,9 +96,20 @@ func (h accountsResourceHandler) ResolveFilter(opts common.ResourceQuery[any], o
 			selectBalance = selectBalance.Where("asset = ?", balanceRegex.FindAllStringSubmatch(property, 2)[0][1])
 		}
 
+		comparison := fmt.Sprintf("balance %s ?", common.ConvertOperatorToSQL(operator))
+		if !balanceRegex.MatchString(property) {
+			// bare `balance`: the sub-select has one row per asset, so it cannot be used as a scalar
+			// (SQLSTATE 21000 for multi-asset accounts); select the account if some asset satisfies
+			return "exists (" + h.store.db.NewSelect().
+				TableExpr("(?) balance", selectBalance).
+				ColumnExpr("1").
+				Where(comparison, value).
+				String() + ")", nil, nil
+		}
+
 		return h.store.db.NewSelect().
 			TableExpr("(?) balance", selectBalance).
-			ColumnExpr(fmt.Sprintf("balance %s ?", common.ConvertOperatorToSQL(operator)), value).
+			ColumnExpr(comparison, value).
 			String(), nil, nil
 	case property == "metadata":
 		return "metadata -> ? is not null", []any{value}, nil
